@@ -15,7 +15,7 @@
 (* the rest of that run is skipped (first deviation wins, so one defect is *)
 (* not reported under unrelated properties).                               *)
 (***************************************************************************)
-EXTENDS Deserr, IOUtils
+EXTENDS DMessages, IOUtils
 
 Rec == ndJsonDeserialize(IOEnv.TRACE)
 
@@ -41,6 +41,10 @@ Flag(s, ps, why) ==
               !.vcount = [p \in Props |-> IF p \in ps THEN @[p] + 1 ELSE @[p]],
               !.viol = IF Len(@) < 12 THEN Append(@, [l |-> l, why |-> why, props |-> ps]) ELSE @,
               !.refok = IF s.cur.isref THEN FALSE ELSE @]
+\* a deviation that is not about the protocol (message content): recorded, the run goes on being judged
+SoftFlag(s, ps, why) ==
+    [s EXCEPT !.vcount = [p \in Props |-> IF p \in ps THEN @[p] + 1 ELSE @[p]],
+              !.viol = IF Len(@) < 12 THEN Append(@, [l |-> l, why |-> why, props |-> ps]) ELSE @]
 Seen(s, ps) == [s EXCEPT !.ncheck = [p \in Props |-> IF p \in ps THEN @[p] + 1 ELSE @[p]]]
 
 (* --------------------------------- runs --------------------------------- *)
@@ -59,7 +63,7 @@ StartRun(s, e) ==
                  !.nruns = @ + 1]
 
 \* C03(c): everything that happens before the first stop answer is identical to the keep-going run of the same input
-NormEv(e) == IF e.e = "err" THEN [e EXCEPT !.ans = "x", !.mj = "", !.mq = ""]      \* the renderings are logged for reference runs only
+NormEv(e) == IF e.e = "err" THEN [e EXCEPT !.ans = "x", !.mj = "", !.mq = "", !.ma = <<>>]      \* the renderings are logged for reference runs only
              ELSE IF e.e = "mrg" THEN [e EXCEPT !.ans = "x"] ELSE e
 PrefixStep(s, e) ==
     IF s.cur.isref THEN [s EXCEPT !.refev = Append(@, NormEv(e))]
@@ -233,6 +237,13 @@ ExitProps(N) == CASE N.c = "scalar" -> {"C05"} [] N.c = "struct" -> {"C07", "C08
                   [] N.c = "cfrom" -> {"C11"}
                   [] N.c = "jvalue" -> {"C13"} [] OTHER -> {"C06"}
 
+\* which promises the obligations still pending in a frame stand for
+PendProps(F) ==
+    LET N == Nodes[F.n] IN
+    UNION {CASE ob.o = "missing" -> {"C08"}
+             [] ob.o = "entry" /\ IsStructLike(N) -> (IF Route(N, F.vi, F.val.e[ob.i].k) = 0 THEN {"C09"} ELSE {"C07"})
+             [] OTHER -> {"C06"} : ob \in F.pend}
+
 \* losing or duplicating a report in a keep-going run also breaks "the final error holds exactly one report per fault"
 KeepGoing(s) == IF s.cur.allc THEN {"C02"} ELSE {}
 
@@ -258,14 +269,14 @@ OnExit(s, e) ==
                  ELSE Flag(s, ExitProps(N), "the value returned is not the one the payload prescribes")
             ELSE IF \E c \in Candidates(s.stack, s.cur) : c.e = "call" THEN Flag(s, {"C11"}, "Ok is returned without running the map / validate function that is due")
             ELSE IF F.ph = "bad" THEN Flag(s, ExitProps(N) \cup {"C04"}, "Ok is returned for a value the target cannot accept, without any report")
-            ELSE Flag(s, {"C02", "C06"}, "Ok is returned before every element / member / field was examined")
+            ELSE Flag(s, {"C02"} \cup PendProps(F), "Ok is returned before every element / member / field was examined")
        ELSE \* error exit
             IF ~bagok THEN Flag(s, {"C01"} \cup KeepGoing(s), "the returned error is not made of exactly the reports made since the call was entered")
             ELSE IF \E c \in cands : ~c.ok THEN Seen(s1, {"C01", "C02", "C03"})
             ELSE IF F.ph = "merge" /\ F.pend = {} THEN s1          \* a child's error passed on without a hand-over call: nothing is lost
             ELSE IF F.ph \in {"leafok"} \/ (F.ph = "work" /\ ~F.fail /\ F.pend = {}) THEN
                  Flag(s, ExitProps(N) \cup {"C01"}, "an error is returned for a payload without any fault")
-            ELSE Flag(s, {"C02"}, "the container returns before every element / member / field was examined although no stop was answered")
+            ELSE Flag(s, {"C02"} \cup PendProps(F), "the container returns before every element / member / field was examined although no stop was answered")
 
 \* reports compared across permutations of the same payload: the quoted `actual` value itself contains the members
 \* in the presented order, so it is left out (kind, location, subject and accepted lists are compared)
@@ -311,6 +322,12 @@ GroupDone(s, e) ==
           ELSE Flag(s, {"C15"}, "permuting object members changes the value or the set of reports"))
     ELSE s
 
+\* C14: the two built-in renderings of a report (logged for every report of a reference run over serde_json)
+MsgStep(s, e) ==
+    IF ~e.ma.has \/ s.cur.src # "json" THEN s
+    ELSE IF MessagesAgree(e, s.cur.val) THEN Seen([s EXCEPT !.nmsg = @ + 1], {"C14"})
+    ELSE SoftFlag(s, {"C14"}, "a built-in message does not consist of the path, value, names and alternatives of the report it renders")
+
 Step(s, e) ==
     CASE e.e \in {"reset", "run"} -> StartRun(s, e)
       [] e.e = "panic" -> Flag(s, {"C12"}, "deserialize panicked")      \* a panic is a fact, whatever happened before in the run
@@ -319,9 +336,9 @@ Step(s, e) ==
       [] s.cur.etype # "rec" -> s
       [] OTHER ->
             LET p == PrefixStep(s, e) IN
-            IF p.runbad THEN Degraded(p, e)
+            IF p.runbad THEN Degraded(IF e.e = "err" THEN MsgStep(p, e) ELSE p, e)
             ELSE CASE e.e = "enter" -> OnEnter(p, e)
-                   [] e.e = "err"   -> OnErr(p, e)
+                   [] e.e = "err"   -> OnErr(MsgStep(p, e), e)
                    [] e.e = "mrg"   -> OnMrg(p, e)
                    [] e.e = "exit"  -> OnExit(p, e)
                    [] e.e = "call"  -> OnCall(p, e)
